@@ -32,8 +32,8 @@ var enumTokens = toks(`[`, `]`, `,`, `"a"`, `"`, `\`, `1`, `1.5`, `0`, `-`, `.`,
 var jsonDocTokens = c12Tokens
 var numberTokens = c13Tokens
 
-var schemaSymbols = []byte("{}[]:,\"\\/bfnrtuaeslx019-+.E @|*#\t\n\r\x01\x7f\xc3\xa9_m")
-var enumSymbols = []byte("[],\"\\/bfnrtuaesl019-+.E *#\t\n\rx\x01\xc3\xa9")
+var schemaSymbols = []byte("{}[]:,\"\\/bfnrtuaeslx019-+.E @|*#\t\n\r\x01\x1f\x7f\xc3\xa9_m")
+var enumSymbols = []byte("[],\"\\/bfnrtuaesl019-+.E *#\t\n\rx\x01\x1f\xc3\xa9")
 
 type spaceBounds struct {
 	schemaN, enumN, regexN, jsonN, numberN int
@@ -189,7 +189,7 @@ func (r *spaceRunner) graphFamily() {
 	names := []string{"@main", "@a", "@b"}
 	var forms []string
 	for _, x := range names {
-		forms = append(forms, x, `{"k": `+x+`}`, `{`+x+`: 1}`, `[`+x+`]`, `"s" // {type: "`+x+`"}`, `{} // {allOf: "`+x+`"}`, `{} // {additionalProperties: "`+x+`"}`)
+		forms = append(forms, x, `{"k": `+x+`}`, `{`+x+`: 1}`, `[`+x+`]`, `"s" // {type: "`+x+`"}`, `{} // {allOf: "`+x+`"}`, `{} // {additionalProperties: "`+x+`"}`, `{"": 1, `+x+`: 1}`)
 		for _, y := range names {
 			forms = append(forms, x+` | `+y, `1 // {or: ["`+x+`", "`+y+`"]}`)
 		}
